@@ -47,7 +47,7 @@ type Disassemble struct {
 func (f *Disassemble) Call(s *slip.Scope, args slip.List, depth int) slip.Object {
 	slip.CheckArgCount(s, depth, f, args, 1, 1)
 	ansi := s.Get("*print-ansi*") != nil
-	right := int(s.Get("*print-right-margin*").(slip.Fixnum))
+	right := slip.RightMarginValue(s.Get("*print-right-margin*"), slip.DefaultRightMargin)
 	w := s.Get("*standard-output*").(io.Writer)
 	var buf []byte
 	a := args[0]
